@@ -22,6 +22,7 @@ PROFILES = {
     "C01": ["mixed", "time", "maxfails", "cancel", "loss", "happy"],
     "C02": ["mixed", "open", "variants", "mn", "retract", "loss"],
     "C03": ["mixed", "open", "maxfails", "happy", "cancel"],
+    "C04": ["variants", "mixed", "cancel", "retract"],
     "C05": ["variants", "mn", "retract", "time", "mixed", "cancel"],
     "C06": ["retract", "loss", "mixed", "variants"],
     "C07": ["loss", "mn", "mixed", "maxfails"],
